@@ -279,6 +279,26 @@ func selfRaceScenarios() []selfScenario {
 			vrt.Go("t", func() { wr(x, "t") })
 			wr(x, "main")
 		}},
+		{name: "race:waitgroup-add-inside-the-goroutine", bound: 3, races: 1, body: func(obs *[]string) {
+			// the worker counts itself after it was started while another worker is being waited for:
+			// the first increment after the counter returned to zero is not ordered with that Wait
+			wg := &vrt.WaitGroup{}
+			wg.Add(1)
+			vrt.Go("first", func() { wg.Done() })
+			vrt.Go("late", func() {
+				wg.Add(1)
+				wg.Done()
+			})
+			wg.Wait()
+		}},
+		{name: "race:waitgroup-add-before-go", bound: 3, races: 0, body: func(obs *[]string) {
+			wg := &vrt.WaitGroup{}
+			for i := 0; i < 2; i++ {
+				wg.Add(1)
+				vrt.Go("worker", func() { wg.Done() })
+			}
+			wg.Wait()
+		}},
 		{name: "race:channel-as-semaphore", bound: 3, races: 0, body: func(obs *[]string) {
 			x := new(int)
 			sem := vrt.MakeChan(make(chan struct{}, 1))
